@@ -66,6 +66,8 @@ def st_yield(ex, y, st):
                 yield s, _raise_out(v)
                 continue
             # yield from <seq>: concatenate
+            if isinstance(v, Val) and strip_opt(v.ty)[0] == "any":
+                v = Val(v.t, SEQ(ANY))  # an uncontracted generator / iterable: the sequence of what it yields (untyped)
             if not (isinstance(v, Val) and strip_opt(v.ty)[0] == "seq"):
                 raise Unsupported("yield from non-sequence")
             cat = ex.seq_concat(s.env["$yield"], v, s)
